@@ -98,6 +98,10 @@ def C13_2(ctx, facts):
     for g in calls:
         ctx.touched(g)
         exe = "ExecuteRequest" in g.locals[2]
+        if exe:
+            cv = [c for c in g.calls() if c.matches(r"Connection.*::version$")]
+            ctx.check(bool(cv), "SetHostHeader::call|consults-connection-version", "below the pool the layer decides by the *connection's* version (Connection::version is consulted)",
+                      "the ExecuteRequest impl of SetHostHeader never asks the connection for its version: a request whose own version differs from the connection's gets the wrong Host treatment", g.where())
         sh = g.calls("service::host::set_host_header")
         ctx.floor("SetHostHeader::call|set_host_header|%s" % ("execute" if exe else "request"), len(sh), 1, "set_host_header call")
         for c in sh:
